@@ -9,6 +9,10 @@ Definition path := list (list N).
 Fixpoint path_eqb (a b : path) : bool :=
   match a, b with [], [] => true | x :: a', y :: b' => beq x y && path_eqb a' b' | _, _ => false end.
 
+(** [pre] is a component-wise prefix of [p]. *)
+Fixpoint path_prefix (pre p : path) : bool :=
+  match pre, p with [], _ => true | x :: a, y :: b => beq x y && path_prefix a b | _, _ => false end.
+
 Definition parent (p : path) : path := removelast p.
 Definition file_name (p : path) : option (list N) := match rev p with [] => None | x :: _ => Some x end.
 
